@@ -1,4 +1,6 @@
 import G3D.Props.C04
+import G3D.Props.C04b
+import G3D.Props.Classes
 #print axioms G3D.Props.C04.dispatch_total
 #print axioms G3D.Props.C04.dispatch_symmetric
 #print axioms G3D.Props.C04.none_guard
@@ -8,3 +10,8 @@ import G3D.Props.C04
 #print axioms G3D.Props.C04.inter_comm_of_ne
 #print axioms G3D.Props.C04.doc_covers_all_pairs
 #print axioms G3D.Props.C04.doc_rows_allow_none
+#print axioms G3D.Props.C04.result_type_documented
+#print axioms G3D.Props.C04.never_undocumented
+#print axioms G3D.Props.Classes.geobody_forwards
+#print axioms G3D.Props.Classes.method_form_is_function_form
+#print axioms G3D.Props.Classes.point_not_geobody
